@@ -150,6 +150,12 @@ def zeroVars (variables : List Name) (de : List (Name × List (Name × Coef))) :
 def retNames (variables : List Name) (de : List (Name × List (Name × Coef))) : List Name :=
   if de.isEmpty then [] else variables.map dName
 
+/-- a component (or `time`) is called like the generated derivative name `d<x>dt` of a variable: refused (after `fix:
+    refuse to generate model code when a component is called like a generated derivative name`) -/
+def derivativeNameTaken (c : Content) (variables : List Name) : Bool :=
+  variables.any fun v =>
+    ("time" :: (omKeys c.vars ++ omKeys c.pars ++ omKeys c.derived ++ omKeys c.rxns)).contains (dName v)
+
 def genModel (bad : List Name) (c : Content) (L : Lang) (free : List Name) : Except Err SLP := do
   let cache ← createCache c                         -- get_initial_conditions / _create_cache
   let variables := omKeys cache.init
@@ -158,6 +164,7 @@ def genModel (bad : List Name) (c : Content) (L : Lang) (free : List Name) : Exc
   let parameters ← popAll (emittedPars c cache) free
   let body ← emitBody bad c cache.order
   let de := diffEqs c.rxns
+  if derivativeNameTaken c variables then throw (.valueError "derivative name")
   let T := templateOf L
   pure { lang := L
          unpack := T.unpack L
